@@ -87,6 +87,8 @@ def concretize(c, tag=False):
     g = c.get("grouped", False)
     if enum:
         return spell(a, g) + " enum S<T> { " + " ".join(fs) + " }"
+    if c["shape"] == "unit":
+        return spell(a, g) + " struct S;"
     if c["shape"] == "named":
         return spell(a, g) + " struct S<T> { " + " ".join(fs) + " }"
     return spell(a, g) + " struct S<T> ( " + " ".join(fs) + " );"
